@@ -1,6 +1,177 @@
 package props
 
-// SelfTest validates the reference model before any check trusts it.
+import (
+	"fmt"
+	"math"
+	"os"
+
+	"xv/adoc"
+	"xv/refxp"
+)
+
+// SelfTest validates the reference model before any check trusts it: the
+// examples printed in the XPath 1.0 Recommendation, axis identities evaluated
+// inside the reference, and parse(render(ast)) round trips of the reference
+// parser/renderer pair. A failure means the harness is broken (exit 2), never
+// that the library is wrong.
 func SelfTest() int {
+	bad := 0
+	fail := func(f string, a ...interface{}) {
+		bad++
+		if bad < 20 {
+			fmt.Fprintf(os.Stderr, "selftest: "+f+"\n", a...)
+		}
+	}
+	d := c08Doc(1)
+	env := c08Env.RefEnv(d)
+	ev := func(s string) (refxp.Value, error) {
+		ast, err := refxp.Parse(s, refxp.Options{})
+		if err != nil {
+			return nil, err
+		}
+		return refxp.Eval(ast, d.Root, env)
+	}
+	// --- examples from the Recommendation (sections 4.2, 4.3, 4.4) and obvious facts
+	strCases := map[string]string{
+		`substring("12345", 2, 3)`: "234", `substring("12345", 2)`: "2345", `substring("12345", 1.5, 2.6)`: "234", `substring("12345", 0, 3)`: "12",
+		`substring("12345", 0 div 0, 3)`: "", `substring("12345", 1, 0 div 0)`: "", `substring("12345", -42, 1 div 0)`: "12345", `substring("12345", -1 div 0, 1 div 0)`: "",
+		`translate("bar","abc","ABC")`: "BAr", `translate("--aaa--","abc-","ABC")`: "AAA", `substring-before("1999/04/01","/")`: "1999", `substring-after("1999/04/01","/")`: "04/01",
+		`substring-after("1999/04/01","19")`: "99/04/01", `normalize-space("  a   b ")`: "a b", `concat("a","b","c")`: "abc", `string(1 div 0)`: "Infinity", `string(-1 div 0)`: "-Infinity",
+		`string(0 div 0)`: "NaN", `string(-0)`: "0", `string(1.50)`: "1.5", `string(100)`: "100", `string(0.0000001)`: "0.0000001", `string(true())`: "true", `string(//a)`: "2", `name(//a)`: "a",
+		`string(1 = 1)`: "true", `string(//b/ancestor::*)`: "235711", `string(/r/a[2]/b/preceding::*)`: "2",
+	}
+	for e, want := range strCases {
+		v, err := ev(e)
+		if err != nil || refxp.ToString(v) != want {
+			fail("%s = %v (%v), want %q", e, v, err, want)
+		}
+	}
+	numCases := map[string]float64{
+		`round(-1.5)`: -1, `round(1.5)`: 2, `round(2.5)`: 3, `round(-2.5)`: -2, `round(0.5)`: 1, `round(-0.2)`: 0, `round(0.49999999999999994)`: 0, `floor(-0.5)`: -1, `ceiling(-0.5)`: 0,
+		`5 mod 2`: 1, `5 mod -2`: 1, `-5 mod 2`: -1, `-5 mod -2`: -1, `5.5 mod 2`: 1.5, `string-length("é😀")`: 2, `count(//b)`: 2, `sum(//b)`: 14, `number(" 12 ")`: 12, `count(/r/a[2]/b/ancestor::node())`: 3,
+		`1 + 2 * 3`: 7, `(1 + 2) * 3`: 9, `7 - 2 - 1`: 4, `8 div 4 div 2`: 1, `-2 * -3`: 6, `2 - -3`: 5, `count(//a | //b)`: 4, `count(//a/following::*)`: 4, `count(/r/c/preceding::*)`: 2, `count(//b[1])`: 2, `count((//b)[1])`: 1,
+		`count(//*[last()])`: 3, `count(/r/*[position() = last()])`: 1, `count(/r/a[2]/b/ancestor::*[1])`: 1, `last()`: 1, `position()`: 1,
+	}
+	for e, want := range numCases {
+		v, err := ev(e)
+		f, ok := v.(float64)
+		if err != nil || !ok || (f != want && !(math.IsNaN(f) && math.IsNaN(want))) {
+			fail("%s = %v (%v), want %v", e, v, err, want)
+		}
+	}
+	boolCases := map[string]bool{
+		`1 < 2`: true, `"10" < "9"`: false, `//b = 3`: true, `//b != 3`: true, `//b = //c`: false, `//zz = //zz`: false, `//zz != 1`: false, `0 div 0 = 0 div 0`: false, `0 div 0 != 0 div 0`: true,
+		`boolean(0 div 0)`: false, `boolean("false")`: true, `true() = "x"`: true, `1 = "1"`: true, `"1" = 1.0`: true, `//a > 6`: true, `//a > 711`: false, `1 or 0 div 0`: true, `not(//zz)`: true,
+		`//zz = false()`: true, `//b = true()`: true, `1 < 2 < 3`: true, `3 > 2 > 1`: false, `1 = 1 = 1`: true, `number("1e3") = number("1e3")`: false, `number("+1") = 1`: false,
+	}
+	for e, want := range boolCases {
+		v, err := ev(e)
+		b, ok := v.(bool)
+		if err != nil || !ok || b != want {
+			fail("%s = %v (%v), want %v", e, v, err, want)
+		}
+	}
+	for _, e := range []string{`count(1)`, `1 | 2`, `1/a`, `$nosuch`, `zz:a`, `nosuch()`, `concat("a")`, `substring("a")`, `//a[`, `1 +`, `a b`, `()`, `child::`, `//a/(b)`, `1.2.3`, `'a`, `//@`, `..[1]`, `.[1]`, `a::b`, `$ v`, `p :a`} {
+		if v, err := ev(e); err == nil {
+			fail("%s must be an error, got %v", e, v)
+		}
+	}
+	// lang() per section 4.3
+	ld := adoc.NewDoc()
+	p := adoc.E("para", adoc.T("x"))
+	p.Add(adoc.ANS(adoc.XMLNS, "xml", "lang", "en-us"))
+	dv := adoc.E("div", adoc.E("para"))
+	dv.Add(adoc.ANS(adoc.XMLNS, "xml", "lang", "EN"))
+	ld.Root.Add(adoc.E("top", p, dv, adoc.E("para")))
+	ld.Finish()
+	if !refxp.Lang(p, "en") || !refxp.Lang(p.Children[0], "EN-US") || refxp.Lang(p, "en-u") || !refxp.Lang(dv.Children[0], "en") || refxp.Lang(ld.Root.Children[0].Children[2], "en") || refxp.Lang(p, "e") {
+		fail("lang() reference")
+	}
+	// --- axis identities inside the reference, over the C01 universe (n<=3, D2)
+	for _, f := range c01Shapes(3) {
+		doc := adoc.Instantiate(f, adoc.D2)
+		var tree []*adoc.Node
+		for _, n := range doc.Nodes {
+			if n.IsTreeNode() {
+				tree = append(tree, n)
+			}
+		}
+		duals := [][2]string{{"child", "parent"}, {"descendant", "ancestor"}, {"following", "preceding"}, {"following-sibling", "preceding-sibling"}}
+		for _, x := range doc.Nodes {
+			in := func(ax string, from, n *adoc.Node) bool {
+				for _, y := range refxp.Axis(ax, from, doc) {
+					if y == n {
+						return true
+					}
+				}
+				return false
+			}
+			if x.IsTreeNode() {
+				for _, y := range tree {
+					cnt := 0
+					for _, ax := range []string{"ancestor", "descendant", "following", "preceding", "self"} {
+						if in(ax, x, y) {
+							cnt++
+						}
+					}
+					if cnt != 1 {
+						fail("partition: %s in %d of the five axes of %s in %s", y.Describe(), cnt, x.Describe(), doc.String())
+					}
+					for _, du := range duals {
+						if in(du[0], x, y) != in(du[1], y, x) {
+							fail("dual %s/%s between %s and %s", du[0], du[1], x.Describe(), y.Describe())
+						}
+					}
+				}
+			}
+			if x.Kind != adoc.Root && !in("ancestor", x, doc.Root) {
+				fail("root is not an ancestor of %s", x.Describe())
+			}
+		}
+		if len(refxp.Axis("parent", doc.Root, doc)) != 0 || len(refxp.Axis("following-sibling", doc.Root, doc)) != 0 {
+			fail("root has parent/siblings")
+		}
+	}
+	// --- parser / renderer round trip on the C08 AST universe
+	docs := []*adoc.Doc{c08Doc(0), c08Doc(1), c08Doc(2)}
+	rends := []refxp.RenderOpt{{}, {WS: 1}, {WS: 2}, {FullParens: true}, {Unabbrev: true}, {FullParens: true, WS: 1, Unabbrev: true}}
+	for _, ast := range c08ASTs(true) {
+		canon := refxp.Render(ast, refxp.RenderOpt{})
+		for _, ro := range rends {
+			text := refxp.Render(ast, ro)
+			back, err := refxp.Parse(text, refxp.Options{})
+			if err != nil {
+				// a generated AST may be a deliberate non-expression only through its
+				// tokens (none are); report
+				fail("reference parser rejects rendering %q of %s: %v", text, canon, err)
+				continue
+			}
+			if ro == (refxp.RenderOpt{}) && refxp.Render(back, refxp.RenderOpt{}) != text {
+				fail("render(parse(%q)) = %q", text, refxp.Render(back, refxp.RenderOpt{}))
+			}
+			for _, dd := range docs {
+				e := c08Env.RefEnv(dd)
+				v1, err1 := refxp.Eval(ast, dd.Root, e)
+				v2, err2 := refxp.Eval(back, dd.Root, e)
+				if !SameValue(RefOutcome(v2, err2), RefOutcome(v1, err1), true) {
+					fail("rendering %q of AST %s evaluates to %v, the AST to %v", text, canon, RefOutcome(v2, err2), RefOutcome(v1, err1))
+				}
+			}
+		}
+	}
+	// number -> string judge
+	for _, c := range []struct {
+		f  float64
+		s  string
+		ok bool
+	}{{1.5, "1.5", true}, {1.5, "1.50", true}, {100, "100", true}, {100, "100.0", false}, {1e21, "1e+21", false}, {1e21, "1000000000000000000000", true}, {0.5, ".5", true}, {-0.0, "0", true}, {0, "-0", false}, {math.NaN(), "NaN", true}, {0.1, "0.1", true}, {0.1, "0.10000000000000001", true}, {0.1, "0.1000000000000001", false}} {
+		if refxp.NumberStringOK(c.f, c.s) != c.ok {
+			fail("NumberStringOK(%v,%q) != %v", c.f, c.s, c.ok)
+		}
+	}
+	if bad > 0 {
+		fmt.Fprintf(os.Stderr, "selftest: %d failures\n", bad)
+		return 2
+	}
 	return 0
 }
